@@ -6017,6 +6017,14 @@ class CodegenCtx:
         # Create all transitions for possible conditions
         if unconditional_end_transition:
             result += self._generate_transition_body(unconditional_end_transition, True)
+            if not unconditional_end_transition.is_fallthrough and all(x.get_target_override_mode() == ActionOverrideMode.NONE for x in unconditional_end_transition.actions):
+                # the end transition was taken and we now rest on its target; whether we're done depends on the target, not on this state
+                # (without strict DONE generation a pure accept state has already returned DONE in the transition body)
+                if unconditional_end_transition.target in self.dfa.accepting_states:
+                    result.add(f"return {self.program_name.upper()}_DONE;")
+                else:
+                    result.add(f"return {self.program_name.upper()}_FAIL;")
+                return result.value()
 
         if state in self.dfa.accepting_states:
             result.add(f"return {self.program_name.upper()}_DONE;")
